@@ -6,11 +6,33 @@ ROOT = os.path.dirname(os.path.dirname(os.path.abspath(__file__)))
 
 TECH = "deterministic simulation with fault injection: seeded search over schedules and fault sequences, "
 
+NOTE_COMMON = "Trusts the virtual kernel's model of Linux socket/epoll semantics, the independent DNS codec used by the virtual servers, and the application model staying inside the documented API contract (no calls from EDESTRUCTION callbacks, no destroy from callbacks). Sampling, not proof."
+
 CLAIMED = {
     'C01': dict(
-        text="Seeded exploration of API histories (all ten entry points, re-entrant callbacks that start requests or cancel, top-level cancel, destroy) against virtual servers (answers, error rcodes, truncation, silence, garbage, resets), packet loss/dup/reorder/delay and per-call socket faults. A per-request ledger decides exactly-once, cancel completeness and no-callback-after-destroy at every step; ASan/UBSan and c-ares' own assertions run in the same executions. Sampling, not proof.",
-        ref="5 C01", tech=TECH + "request-ledger oracle + ASan/UBSan over each simulated history",
-        note="Trusts the virtual kernel's model of Linux socket semantics and the application model staying inside the documented API contract (no calls from EDESTRUCTION callbacks, no destroy from callbacks)."),
+        text="Seeded exploration of API histories (all ten entry points, re-entrant callbacks that start requests or cancel, top-level cancel, destroy) against virtual servers (answers, error rcodes, truncation, silence, garbage, resets), packet loss/dup/reorder/delay and per-call socket faults. A per-request ledger decides exactly-once, cancel completeness and no-callback-after-destroy at every step; ASan/UBSan and c-ares' own assertions run in the same executions.",
+        ref="5 C01", tech=TECH + "request-ledger oracle + ASan/UBSan over each simulated history", note=NOTE_COMMON),
+    'C03': dict(
+        text="Scoped to the write-parse round trips that happen inside the simulated pipeline: every UDP datagram / TCP frame the library hands to a socket (at whatever offset of the connection's output buffer the transport schedule leaves it) is decoded by an independent codec and compared field by field with the request made, including multi-record requests built with the public setters (shared suffixes, escaped names, > 16 KiB); every answer delivered through record or legacy-buffer callbacks is compared with what the virtual server sent.",
+        ref="5 C03", tech=TECH + "reference-decoder oracle at the virtual server and at the callbacks", note=NOTE_COMMON + " The free-standing 'any record round-trips through ares_dns_write/ares_dns_parse' clause is a pure function of the record and is only reached as far as simulated requests/answers travel through it."),
+    'C05': dict(
+        text="Genuine traffic plus an off-path adversary injecting datagrams that differ from the would-be-valid reply in exactly one respect (id, socket, source address, name, type, class, question count, letter case, cookie) at seeded instants of a query's life. Every delivered datum (including later cache hits) carries a unique marker naming its packet; a marker from a packet that was unacceptable at the instant the library read it is a violation, as is a server-success report in a call that only read unacceptable packets.",
+        ref="5 C05", tech=TECH + "provenance oracle (unique markers per packet, acceptability judged by the simulator at read time)", note=NOTE_COMMON),
+    'C06': dict(
+        text="Seeded per-attempt outcome sequences over option extremes (tries up to 100, timeouts 1 ms..INT_MAX, maxtimeout below the 250 ms floor), dead servers, list edits in flight. Transmissions per wire query are counted at the virtual network against servers x tries + 5; every attempt's wait is checked against the sound envelope (floor, configured maximum, 5000*2^round); termination within a step budget once faults stop; UBSan for the arithmetic.",
+        ref="5 C06", tech=TECH + "counting at the virtual network + envelope oracle on white-box read of per-attempt deadlines + UBSan", note=NOTE_COMMON + " Per-attempt deadlines are read (never written) through sim/peek.c."),
+    'C07': dict(
+        text="Mode A part (application-driven loop): after every step the ares_timeout() hint is compared with the earliest deadline in the channel (white-box read) for NULL/zero/random maxtv; the scheduler sleeps exactly the hint, overshoots or stalls, and no expired deadline may survive a process call. The event-thread (Mode B) clause is covered by the threaded part when built; see DESIGN.md.",
+        ref="5 C07", tech=TECH + "hint-vs-deadline invariant at every loop turn under a virtual clock", note=NOTE_COMMON),
+    'C08': dict(
+        text="Seeded request/response/time-advance/reconfigure sequences over a small name set. A request completed without any transmission is a cache hit; its markers identify the cached response, and a reference model (key, rcode/TC filter, whole-second freshness against min(max_ttl, own TTLs or SOA minimum), flush on membership change/reinit) decides whether the hit was allowed and which TTLs it may show through record, legacy and addrinfo APIs.",
+        ref="5 C08", tech=TECH + "reference cache model over recorded history, virtual clock stepping across expiry seconds", note=NOTE_COMMON + " A pure reorder of the server list is treated as ambiguous (not required to flush)."),
+    'C10': dict(
+        text="The virtual socket layer never reuses descriptor numbers and logs every call: any call or close on a closed/never-opened descriptor, a leaked or doubly closed socket, a UDP socket over its per-socket query limit, a socket-state notification outside the descriptor's lifetime, a missing/duplicate final (0,0), an open socket the application was not told to watch (read; write while a connect or partial write is pending), and any disagreement between ares_fds/ares_getsock and the open set is a violation, under per-call socket faults, TFO, failing socket callbacks, cancels and reconfiguration.",
+        ref="5 C10", tech=TECH + "call-protocol automaton over the virtual kernel's call log and callback streams", note=NOTE_COMMON),
+    'C20': dict(
+        text="Differential: each seeded plan (batches of queued queries, answers up to several KiB, TC upgrades) runs twice, once over whole-message always-writable transport and once with generated inbound chunking (down to 1 byte), partial writes, EAGAIN windows and zero-length datagrams; per-request outcomes and the set of questions reaching the servers must agree, every frame at the server must decode. A valgrind-memcheck part runs the same profile on an uninstrumented build to catch uninitialised reads on these paths.",
+        ref="5 C20", tech=TECH + "differential execution of the same plan with and without transport segmentation + valgrind part", note=NOTE_COMMON + " How often/where a question is retransmitted is timing dependent and not compared."),
 }
 
 NOT_YET = {}
@@ -58,7 +80,7 @@ def main():
     na.sort(key=lambda d: d['property_id'])
     m = dict(
         version=1,
-        setup_cmd="./build.sh asan && ./build.sh tsan",
+        setup_cmd="./build.sh asan && ./build.sh plain",
         hooks=dict(guard="CARES_VERIF_SIM", enable="cmake -DCMAKE_C_FLAGS='... -DCARES_VERIF_SIM' (done by /verif/build.sh for the asan and tsan trees under /verif/build)",
                    baseline_off_cmd="cmake --build /repo/_build -j16 && ctest --test-dir /repo/_build -j8 --timeout 900",
                    source_commits=repo_commits(), add_only=True),
